@@ -1,6 +1,7 @@
 """Property -> units / harnesses / stated assumptions.  Units are /verif/units/<name>.vrs."""
 
 UNIT_NOTES = {
+    "dbfacade": "L4 Brc20ProgDatabase against the L3 CONTRACT FILES (tables opaque): heights, stamped setters, require_block_does_not_exist, set_block_hash, commit_changes, clear_caches, reorg",
     "blockdb": "L3 block-keyed table BlockDatabase<V>: get/set/commit/clear_cache/last_key/reorg over the DB shim (view = cache over disk)",
     "table": "L3 versioned table BlockCachedDatabase<K,V,C> over the DB shim: latest/set/unset/retrieve_cache/clear_cache (+commit/reorg/get_range/all)",
     "history": "L2 per-key history BlockHistoryCacheData<V>: new/latest/set/unset/reorg/is_old/remove_old_values against the abstract Map<u64,Option<V>> model",
@@ -8,6 +9,18 @@ UNIT_NOTES = {
 }
 
 PROPS = {
+    "C01": {
+        "units": ["history", "table", "blockdb", "dbfacade"],
+        "kani": [],
+        "level": "proof",
+        "assumptions": [],
+    },
+    "C03": {
+        "units": ["table", "blockdb", "dbfacade"],
+        "kani": [],
+        "level": "proof",
+        "assumptions": [],
+    },
     "C13": {
         "units": ["history", "table", "blockdb"],
         "kani": [],
